@@ -257,6 +257,27 @@ def randomize_generations(rng, data, share=0.8):
     return bytes(s.d), n
 
 
+def _rightmost_end(s, bs, blk):
+    """First logical block behind everything mapped below extent node `blk` (rightmost path)."""
+    seen = 0
+    while seen < 8:
+        o = blk * bs
+        if o + bs > len(s.d) or s.u16(o) != 0xF30A:
+            return 0, 0, False
+        n, depth = s.u16(o + 2), s.u16(o + 6)
+        if n == 0 or 12 + 12 * n > bs:
+            return 0, 0, False
+        e = o + 12 + 12 * (n - 1)
+        if depth == 0:
+            ln = s.u16(e + 4)
+            if ln > 32768:
+                ln -= 32768
+            return s.u32(e) + ln, seen, True
+        blk = s.u32(e + 4) | (s.u16(e + 8) << 32)
+        seen += 1
+    return 0, 0, False
+
+
 def _field(rng, s, base, fields, limit=None):
     fields = [f for f in fields if limit is None or f[1] + f[2] <= limit]
     name, off, size = rng.choice(fields)
@@ -724,7 +745,15 @@ def gen_struct_faults(rng, data, n=1, reseal_p=0.5, kinds=None, boost=None):
                         if rng.chance(0.6) and entries < s.u16(o + 4):
                             last = o + 12 + 12 * (entries - 1)
                             eo = o + 12 + 12 * entries
-                            s.w(eo, struct.pack("<IIHH", s.u32(last) + 1000, tgt & 0xFFFFFFFF, 0, 0))
+                            nl = s.u32(last) + 1000
+                            if (ino + blk) & 1:
+                                # (no draw: keeps every other case of the seed as it was)  the entry starts right
+                                # behind the last mapped block below this node, so it breaks no ordering or bounds
+                                # rule and the cycle is the only thing wrong with the tree (seeded change C02-m3)
+                                eb, d_, ok = _rightmost_end(s, bs, blk)
+                                if ok:
+                                    nl = eb
+                            s.w(eo, struct.pack("<IIHH", nl & 0xFFFFFFFF, tgt & 0xFFFFFFFF, 0, 0))
                             s.p16(o + 2, entries + 1)
                             name, cur, new = "ei_leaf_lo(appended, cycle)", 0, tgt
                         else:
